@@ -23,13 +23,19 @@ CLAIMS = {
                      'of its leaves, immediately and after every later merge',
     'C16.override': 'a _schema override changes exactly the named process and '
                     'port',
+    'C16.template': 'one composer generated several times with different '
+                    'overriding configs (reaching into nested entries of its '
+                    'config) yields each time what a fresh composer with that '
+                    'config yields; its stored config is unchanged',
 }
 GOALS = {'quick': ['same template merged twice', 'overlapping nested key',
                    'embedded two levels deep',
-                   'merge into a generated composite'],
+                   'merge into a generated composite',
+                   'composer generated again after a nested override'],
          'thorough': ['same template merged twice', 'overlapping nested key',
                       'embedded two levels deep',
-                      'merge into a generated composite']}
+                      'merge into a generated composite',
+                      'composer generated again after a nested override']}
 STUBS = ['composer with two pure processes (symbolic constant timesteps, '
          'symbolic delta) and three flow steps (two in one layer, one '
          'dependent); recording emitter']
@@ -107,9 +113,74 @@ class C(Composer):
                 'st2': {'t': ('t',)}, 'st3': {'t': ('t',)}}
 
 
+class CN(C):
+    """the same composer with a nested config entry"""
+    defaults = {'grow': {'ts': 1, 'd': 1}, 'ts2': 1}
+
+    def generate_processes(self, config):
+        g = config['grow']
+        return {'p': P({'ts': g['ts'], 'd': g['d']}),
+                'q': P({'ts': config['ts2'], 'd': g['d']})}
+
+
+def part_template(ctx, cfg):
+    d0 = ctx.int('d', -3, 3)
+    d1 = ctx.int('d', -3, 3)
+    t2 = ctx.int('ts', 1, 3)
+    T = ctx.int('T', 1, 3)
+    path = [(), ('a',)][ctx.choice('path', 2)]
+    composer = CN({'grow': {'d': d0}})
+    before = copy.deepcopy(composer.config)
+    first = composer.generate({'grow': {'d': d1}}, path=path)
+    seq = []
+    for k in range(2):
+        which = ctx.choice('next', 3)
+        over = [None, {'grow': {'ts': t2}}, {'ts2': t2}][which]
+        exp = [dict(d=d0, ts=1, ts2=1), dict(d=d0, ts=t2, ts2=1),
+               dict(d=d0, ts=1, ts2=t2)][which]
+        seq.append((over, exp, composer.generate(over, path=path)))
+    ctx.goal('composer generated again after a nested override')
+
+    def params(comp):
+        pr = get(comp['processes'], path)
+        return pr['p'].parameters, pr['q'].parameters
+    pp, pq = params(first)
+    cl = [EQ(pp['d'], d1), EQ(pq['d'], d1), EQ(pp['ts'], 1), EQ(pq['ts'], 1)]
+    for over, exp, comp in seq:
+        pp, pq = params(comp)
+        cl += [EQ(pp['d'], exp['d']), EQ(pq['d'], exp['d']),
+               EQ(pp['ts'], exp['ts']), EQ(pq['ts'], exp['ts2'])]
+    cl.append(_same_tree(composer.config, before))
+    stubs.reset_sink()
+    over, exp, comp = seq[-1]
+    fresh = CN({'grow': {'d': d0}}).generate(over, path=path)
+    r1, _ = run({'composite': comp}, T, 'again')
+    r2, _ = run({'composite': fresh}, T, 'fresh')
+    cl.append(same(r2, r1))
+    ctx.claim('C16.template', AND(cl), sig='template', info=lambda: dict(
+        config_before=before, config_after=composer.config,
+        overrides=[o for o, _, _ in seq], again=r1, fresh=r2))
+    for r in r1:
+        for k, v in sorted(r.items()):
+            ctx.observe(str(k), v)
+
+
+def _same_tree(a, b):
+    if isinstance(a, dict) or isinstance(b, dict):
+        if not (isinstance(a, dict) and isinstance(b, dict)) \
+                or set(a) != set(b):
+            return False
+        return AND([_same_tree(a[k], b[k]) for k in a])
+    if is_sym(a) or is_sym(b):
+        return EQ(a, b)
+    return a == b
+
+
 def jobs(tier):
     q = tier == 'quick'
-    return [dict(name='embed', part='embed', budget_s=100 if q else 900,
+    return [dict(name='template', part='template',
+                 budget_s=100 if q else 600),
+            dict(name='embed', part='embed', budget_s=100 if q else 900,
                  crosscheck=0 if q else 10),
             dict(name='merge', part='merge', L=3 if q else 4,
                  budget_s=100 if q else 900),
